@@ -6,6 +6,7 @@ CONSTANTS
   Conns = {1, 2, 3, 4}
   CacheModes = {"nil", "on"}
   MaxSalt = 6
+  Faults = TRUE
   MaxInFlight = 2
 INVARIANTS TypeOK RespSaltsFresh RespSaltsRecognised ReflectedNeverAuthenticated StatusClasses ProbeNoEffect
 VIEW View
